@@ -171,7 +171,14 @@ func (s *Server) serveMsgBy(
 	}
 	ctx := contextutil.WithLazyDeadline(parent, deadline)
 	defer ctx.Cancel()
-	if contextutil.EffectiveError(ctx) != nil {
+	if err := contextutil.EffectiveError(ctx); err != nil {
+		// Out of time before it began (see answerExpired): SERVFAIL for
+		// an expired deadline, silence for a caller that has gone away.
+		if errors.Is(err, context.DeadlineExceeded) && parent.Err() == nil && len(r.Question) == 1 {
+			servfail := new(dns.Msg)
+			servfail.SetRcode(r, dns.RcodeServerFailure)
+			_ = w.WriteMsg(servfail)
+		}
 		return
 	}
 
